@@ -24,6 +24,12 @@ structure FeeParams where
 
 def FeeParams.sizeFee (p : FeeParams) (len : Nat) : Int := (len : Int) * p.a + p.b + p.margin
 
+/-- `ops::eval_size_fees`: the estimate in checked 64-bit arithmetic - `len * a`, `+ b`, `+ margin`, each step refused
+when it leaves `u64` (all operands are non-negative, so that is exactly when the partial sum does). -/
+def FeeParams.evalSizeFees (p : FeeParams) (len : Nat) : Outcome Int :=
+  if (len : Int) * p.a < 2^64 ∧ (len : Int) * p.a + p.b < 2^64 ∧ p.sizeFee len < 2^64 then .ok (p.sizeFee len)
+  else .err "CoerceError:fee"
+
 /-- One pass: the fee to apply and the compiler's remembered state in, an evaluation and the new
 compiler state out. -/
 abbrev Pass (σ : Type) := Int → σ → Outcome (Eval × σ)
